@@ -321,6 +321,13 @@ def visit(visitor, obj, attr, cff):
                     setattr(private, attr, visitor.scale(value))
 
 
+@ScalerVisitor.register_attr(ttLib.getTableClass("avar"), "table")
+def visit(visitor, obj, attr, value):
+    # The deltas of an avar version 2 VarStore are normalized axis
+    # coordinates (F2Dot14), not design units: nothing in avar scales.
+    return False
+
+
 # ItemVariationStore
 
 
